@@ -15,90 +15,74 @@ Oracle (from the statement, weakest reading where it is ambiguous), over the Plo
   e  the row belongs to the plot log of the run the values were reported for.
 """
 from symx.obligation import Obligation
-from props.agg_common import aggregator_world, ASSUMPTIONS_DB
+from props.agg_common import aggregator_world, ASSUMPTIONS_DB, ASSUMPTION_DATETIME
 
 KINDS = ["A", "C", "AB", "AC", "B", "BC", "dup"]
 RUN = "r1"
 T_MAX = 10_000_000_000
 
 
-class _NoDatetime:
-    """models.datetime stand-in: TagsInfo.upsert formats both tick times for a (stripped) warning in its __debug__ block."""
-
-    class _S:
-        def strftime(self, fmt):
-            return ""
-
-    @classmethod
-    def fromtimestamp(cls, *a, **kw):
-        return cls._S()
-
-
 def harness(sym):
-    import openpectus.aggregator.models as AM
     shape = sym.shard["shape"]
     pre = sym.shard.get("pre", "")
+    one_time = sym.shard.get("one_time", False)      # all tags of a message carry the same tick time
     with aggregator_world(sym) as w:
-        saved_dt = AM.datetime
-        AM.datetime = _NoDatetime
-        try:
-            interval = sym.real("interval", 0, None, lo_strict=True)
-            w.register(interval=interval)
-            reports = {}      # tag -> [(tick_time, value)] delivered so far
-            stored = {}       # tag -> [(stored time, tick time of the report behind it)]
-            serial = [0]
+        interval = sym.real("interval", 0, None, lo_strict=True)
+        w.register(interval=interval)
+        reports = {}      # tag -> [(tick_time, value)] delivered so far
+        stored = {}       # tag -> [(stored time, tick time of the report behind it)]
+        serial = [0]
 
-            def make(names, j):
-                tvs = []
-                for name in names:
-                    t = sym.real(f"t{j}{name}", 0, T_MAX)
-                    v = sym.int(f"v{j}{name}", 1000 * serial[0], 1000 * serial[0] + 999)   # disjoint ranges: a value identifies its report
-                    serial[0] += 1
-                    tvs.append((name, t, v))
-                return tvs
+        def make(names, j):
+            tvs = []
+            tm = sym.real(f"t{j}", 0, T_MAX) if one_time else None
+            for name in names:
+                t = tm if one_time else sym.real(f"t{j}{name}", 0, T_MAX)
+                v = sym.int(f"v{j}{name}", 1000 * serial[0], 1000 * serial[0] + 999)   # disjoint ranges: a value identifies its report
+                serial[0] += 1
+                tvs.append((name, t, v))
+            return tvs
 
-            def deliver(tvs, run_id):
-                for name, t, v in tvs:
-                    reports.setdefault(name, []).append((t, v))
-                w.tags(run_id, [w.tag_value(name, t, v) for name, t, v in tvs])
+        def deliver(tvs, run_id):
+            for name, t, v in tvs:
+                reports.setdefault(name, []).append((t, v))
+            w.tags(run_id, [w.tag_value(name, t, v) for name, t, v in tvs])
 
-            if pre:
-                deliver(make(pre, "p"), None)          # a report before the run starts (no run id yet)
-            w.run_started(RUN)
-            seen_rows = 0
-            last = None
-            for j, kind in enumerate(shape):
-                if kind == "dup":
-                    if last is None:
-                        return
-                    tvs = last
-                else:
-                    tvs = make(kind, j)
-                last = tvs
-                deliver(tvs, RUN)
-                rows = w.entry_values(seen_rows)
-                seen_rows += len(rows)
-                for plot_log, name, row in rows:
-                    where = f"after message {j} of {shape}"
-                    sym.check(plot_log is not None and plot_log.run_id == RUN, "row-in-other-plot-log", f"{where}: value row not in the plot log of {RUN}")
-                    T = row.tick_time
-                    src = None
-                    for (t, v) in reports.get(name, []):
-                        if v == row.value_int:
-                            src = t
-                            break
-                    sym.check(src is not None, "value-never-reported", f"{where}: stored value of {name} was never reported for that tag")
-                    sym.check(src <= T, "stored-before-reported", f"{where}: value of {name} stored with a time before the tick time it was reported with")
-                    hist = stored.setdefault(name, [])
-                    if hist:
-                        T0, src0 = hist[-1]
-                        sym.check(T0 < T, "timestamps-not-increasing", f"{where}: stored timestamps of {name} do not strictly increase")
-                        sym.check(T - T0 >= interval, "stored-twice-within-interval", f"{where}: {name} stored twice within one data-log interval")
-                        sym.check(src >= src0, "older-value-stored", f"{where}: stored value of {name} is older than the one stored before")
-                    hist.append((T, src))
-                sym.reach()
-        finally:
-            AM.datetime = saved_dt
+        if pre:
+            deliver(make(pre, "p"), None)          # a report before the run starts (no run id yet)
+        w.run_started(RUN)
+        seen_rows = 0
+        last = None
+        for j, kind in enumerate(shape):
+            if kind == "dup":
+                if last is None:
+                    return
+                tvs = last
+            else:
+                tvs = make(kind, j)
+            last = tvs
+            deliver(tvs, RUN)
+            rows = w.entry_values(seen_rows)
+            seen_rows += len(rows)
+            for plot_log, name, row in rows:
+                where = f"after message {j} of {shape}"
+                sym.check(plot_log is not None and plot_log.run_id == RUN, "row-in-other-plot-log", f"{where}: value row not in the plot log of {RUN}")
+                T = row.tick_time
+                src = None
+                for (t, v) in reports.get(name, []):
+                    if v == row.value_int:
+                        src = t
+                        break
+                sym.check(src is not None, "value-never-reported", f"{where}: stored value of {name} was never reported for that tag")
+                sym.check(src <= T, "stored-before-reported", f"{where}: value of {name} stored with a time before the tick time it was reported with")
+                hist = stored.setdefault(name, [])
+                if hist:
+                    T0, src0 = hist[-1]
+                    sym.check(T0 < T, "timestamps-not-increasing", f"{where}: stored timestamps of {name} do not strictly increase")
+                    sym.check(T - T0 >= interval, "stored-twice-within-interval", f"{where}: {name} stored twice within one data-log interval")
+                    sym.check(src >= src0, "older-value-stored", f"{where}: stored value of {name} is older than the one stored before")
+                hist.append((T, src))
+            sym.reach()
 
 
 def _canonical(shape):
@@ -118,10 +102,16 @@ def _shapes(n):
     return [s for s in out if s[0] != "dup" and _canonical(s) and not any(a == "dup" and b == "dup" for a, b in zip(s, s[1:]))]
 
 
+def _pairs(shape):
+    return sum(1 for k in shape if len(k) == 2)
+
+
 def _shards(tier):
     if tier == "quick":
-        return [{"shape": s} for s in _shapes(3)] + [{"shape": s, "pre": "A"} for s in _shapes(2)]
-    return [{"shape": s} for s in _shapes(4)] + [{"shape": s, "pre": p} for s in _shapes(3) for p in ("A", "AC")]
+        return ([{"shape": s} for s in _shapes(3) if _pairs(s) <= 2] + [{"shape": s, "pre": "A"} for s in _shapes(2)])
+    return ([{"shape": s} for s in _shapes(3)] + [{"shape": s, "pre": p} for s in _shapes(2) for p in ("A", "AC")] +
+            [{"shape": s} for s in _shapes(4) if _pairs(s) <= 1] +
+            [{"shape": s, "one_time": True} for s in _shapes(4)])
 
 
 OBLIGATIONS = [Obligation(
@@ -142,7 +132,7 @@ OBLIGATIONS = [Obligation(
         "floats modelled as reals (CrossHair RealBasedSymbolicFloat); counterexamples are replayed with binary64",
         "reported values are ints, pairwise distinct per report (disjoint ranges) so that a stored value identifies the report it came from; "
         "the code never branches on the value of these tags",
-        "models.datetime replaced by a stub: TagsInfo.upsert only formats the two tick times for a warning inside its __debug__ block",
+        ASSUMPTION_DATETIME,
         "the two plotted tags are interchangeable (streams in which B appears before A are covered by symmetry)",
         "the engine sends its UodInfoMsg (readings A,B; data-log interval) before the run starts; plain tags only (not Mark / Method Status / Run Id)",
     ],
